@@ -1,4 +1,5 @@
 import MW.Staking.Validate
+import MW.Ownership
 /-!
 # Handlers of the staking contract (contracts/staking/src/execute.rs, ibc.rs, contract.rs)
 
@@ -240,32 +241,27 @@ def removeValidator (s : CState) (info : Info) (v : String) : R Out := do
   let cfg' := { cfg with native := { cfg.native with validators := cfg.native.validators.erase addr } }
   pure ({ s with config := cfg' }, [])
 
-def SEVEN_DAYS : Nat := 60 * 60 * 24 * 7
+/-- the three stored values of the handover protocol -/
+def ownOf (s : CState) : Own :=
+  { admin := s.admin, pending := s.st.pendingOwner, minTime := s.st.ownerMinTime }
+
+def setOwn (s : CState) (o : Own) : CState :=
+  { s with admin := o.admin, st := { s.st with pendingOwner := o.pending, ownerMinTime := o.minTime } }
 
 /-- `execute_transfer_ownership` -/
 def transferOwnership (s : CState) (env : Env) (info : Info) (newOwner : String) : R Out := do
-  assertAdmin s info.sender
-  let o ← addrValidate env.chainPrefix newOwner
-  let t ← add64 "A22a" env.seconds SEVEN_DAYS
-  let tn ← mul64 "A22b" t 1000000000
-  pure ({ s with st := { s.st with pendingOwner := some o, ownerMinTime := some tn } }, [])
+  let o ← (ownOf s).nominate env.seconds info.sender (addrValidate env.chainPrefix newOwner)
+  pure (setOwn s o, [])
 
 /-- `execute_revoke_ownership_transfer` -/
 def revokeOwnership (s : CState) (info : Info) : R Out := do
-  assertAdmin s info.sender
-  pure ({ s with st := { s.st with pendingOwner := none, ownerMinTime := none } }, [])
-
-/-- the time lock of `execute_accept_ownership` -/
-def ownershipRipe (minTime : Option Nat) (nowS : Nat) : Bool :=
-  match minTime with
-  | some t => decide (t / 1000000000 ≤ nowS)
-  | none => true
+  let o ← (ownOf s).revoke info.sender
+  pure (setOwn s o, [])
 
 /-- `execute_accept_ownership` -/
 def acceptOwnership (s : CState) (env : Env) (info : Info) : R Out := do
-  ensure (ownershipRipe s.st.ownerMinTime env.seconds) .ownershipNotReady
-  ensure (s.st.pendingOwner == some info.sender) .noPendingOwner
-  pure ({ s with st := { s.st with pendingOwner := none }, admin := some info.sender }, [])
+  let o ← (ownOf s).accept env.seconds info.sender
+  pure (setOwn s o, [])
 
 /-- `paginate_map` over an `AMap` (ascending): exclusive cursor, the limit counts matches only -/
 def paginate {α} (m : AMap α) (startAfter : Option Nat) (limit : Option Nat) (f : α → Bool) : List α :=
